@@ -271,8 +271,11 @@ pub(crate) fn parse_included_files<P: AsRef<Path>>(
         .statements()
         .filter_map(|parse_stmt| match parse_stmt {
             synast::Stmt::Include(include) => {
-                let file: synast::FilePath = include.file().unwrap();
-                let file_path = file.to_string().unwrap();
+                // An `include` without a usable path literal is skipped here: a missing
+                // path is a syntax error that has already been recorded, and a path with an
+                // invalid escape sequence is reported during semantic analysis.
+                let file: synast::FilePath = include.file()?;
+                let file_path = file.to_string()?;
                 // stdgates.inc will be handled "as if" it really existed.
                 if file_path == "stdgates.inc" {
                     None
